@@ -8,7 +8,7 @@ mkdir -p bin .work
 [ -x bin/gosmt ] || (cd engine && go build -o "$ROOT/bin/gosmt" .) || exit 2
 for job in "$@"; do
   set -- $job; p=$1; re=$2
-  for sol in z3 z3-new; do
+  for sol in ${SOLVERS:-z3 z3-new}; do
     s=$(date +%s)
     ./bin/gosmt check $p --tier thorough -only "$re" -noevidence --solver $sol > .work/thonly-$p-$sol.log 2>&1; rc=$?
     echo "THOROUGH-ONLY $p /$re/ solver=$sol exit=$rc secs=$(( $(date +%s)-s )) :: $(grep -c '^obligation' .work/thonly-$p-$sol.log) obligations; $(grep -E 'INCONCLUSIVE|VIOLATION' .work/thonly-$p-$sol.log | head -2 | cut -c1-200 | tr '\n' ' ')"
